@@ -19,8 +19,17 @@ CHECKS = {
                   "specification's answer at its linearization point although it reads the writing segment and the others at different "
                   "moments; publishers get disjoint consecutive ranges; a message disappears only through a Delete that reports it; a "
                   "stale Rewrite snapshot is never swapped in; at most one call inside writerMu / deleteMu, swaps only without readers. "
-                  "Not expressible in the model: Go's memory model and the atomicity of the lock primitives themselves (data-race "
-                  "freedom is decided by the race detector), reader-internal locks (indexMu, messagesMu, GC), Stat. The model is tied to "
+                  "The lazy load / unload of a sealed segment's log file is a second transition system (ReaderGC.v: reader.getMessages "
+                  "with its fast path under RLock and slow path under Lock, the deferred release of messagesInuse, reader.GC; cut at every "
+                  "lock operation, every look at r.messages, every update of the counter): for any number of reading calls and GC calls "
+                  "and every interleaving, no call reads through a closed mapping and GC never closes a mapping counted as in use "
+                  "(reads_never_see_a_closed_mapping; invariant: the counter is exactly the number of calls holding a reference, whoever "
+                  "holds one sees the file loaded, a GC that passed its test still sees zero because the counter only grows under the "
+                  "lock GC holds); its transcription is checked on every run by reading the operations on messagesMu / messagesInuse / "
+                  "r.messages of every method of *reader off /repo/log_reader.go (harness/cmd/protoscan, go/ast) and comparing them with "
+                  "lib/readergc_protocol.txt. "
+                  "Not expressible in the models: Go's memory model and the atomicity of the lock primitives themselves (data-race "
+                  "freedom is decided by the race detector), the index lock indexMu, Stat. The model Conc.v is tied to "
                   "/repo by pause points (tag verif): ~1500 (thorough 20000) placements of one or two calls inside the windows "
                   "publish.written / publish.rolled / delete.found / delete.synced / delete.rewritten of a held call on 1-4 segment logs - "
                   "the implementation's outcome (results of all calls, live messages, NextOffset) must be among the outcomes the extracted "
@@ -32,7 +41,7 @@ CHECKS = {
                   "deleter, the first use of segments without index files by eight goroutines at once.",
              ref='6/C08', technique='Coq proof (inductive invariant of a small-step model of the lock protocol; linearizability by refinement, all interleavings) + pause-point placements on the real log',
              note="Data-race freedom of the Go code is not a theorem: it is checked by the race detector on the concurrent runs. "
-                  "Reader-internal synchronisation (lazy load/unload, GC) and Stat are outside the model. " + COMMON_NOTE),
+                  "The lazy index load under indexMu and Stat are outside the models. " + COMMON_NOTE),
  'C20': dict(text="Partial. Proved (Coq) on the segment-list model (Backup.v: every segment file of the source copied under its name into the "
                   "target, files the source does not name left alone; a skipped copy has the same content): a backup into an empty "
                   "directory, or repeated into a directory all of whose file names still exist in the source, is the source directory "
